@@ -20,6 +20,8 @@ const modPath = "github.com/pion/dtls/v3"
 // Ctx is the loaded, type-checked program in SSA form plus indexes.
 type Ctx struct {
 	Repo        string
+	VerifDir    string
+	otherRev    map[string]string
 	Tier        string
 	Fset        *token.FileSet
 	Prog        *ssa.Program
